@@ -1390,7 +1390,27 @@ def case_count_sweep(ctx, counts):
         F.add_clauses_from(clauses, check=False)
         buf = io.StringIO()
         F.to_file(buf, fileformat="dimacs", export_header=bool(m % 2))
-        for how, text in (("to_dimacs", F.to_dimacs()), ("to_file", buf.getvalue())):
+        routes = [("to_dimacs", F.to_dimacs()), ("to_file", buf.getvalue())]
+        if m % 4 == 0:
+            # streams that have no file name (an anonymous temporary file reports a descriptor number, a spooled one
+            # None): written without naming a format (DIMACS is the default), read back from the same stream
+            import tempfile
+            for mk, tag in ((lambda: tempfile.TemporaryFile("w+", encoding="utf-8"), "TemporaryFile"),
+                            (lambda: tempfile.SpooledTemporaryFile(mode="w+", encoding="utf-8"), "SpooledTemporaryFile")):
+                with mk() as fh:
+                    st, v = ctx.call(F.to_file, fh)
+                    ctx.count("nameless_stream_exports")
+                    if st == "exc":
+                        ctx.violation("dimacs-writer:nameless-stream:raises:%s" % type(v).__name__, "to_file(%s) without a format raised %r" % (tag, v))
+                        continue
+                    fh.seek(0)
+                    routes.append(("to_file(%s)" % tag, fh.read()))
+                    fh.seek(0)
+                    st, G = ctx.call(K.from_file, fh)
+                    if st == "exc" or G.number_of_variables() != n or [list(c) for c in G] != clauses:
+                        ctx.violation("dimacs-reader:nameless-stream:%s" % (type(G).__name__ if st == "exc" else "misread"),
+                                      "from_file(%s) of a written text with %d clauses: %r" % (tag, m, G if st == "exc" else len(G)))
+        for how, text in routes:
             ctx.count("count_sweep_exports")
             try:
                 rn, rc = ref.read(text)
